@@ -72,7 +72,7 @@ TraceTableEvent ==
         ELSE table' = {Merge(e, x) : x \in snap}
      /\ obs' = [set |-> TRUE, snap |-> snap, snapLen |-> Len(Ev.snap), numNodes |-> Ev.numNodes, statsNodes |-> Ev.statsNodes,
                 goodNodes |-> Ev.goodNodes, nodes |-> {<<p[1], p[2]>> : p \in Range(Ev.nodes)},
-                nodesLen |-> Len(Ev.nodes), addrIndex |-> Ev.addrIndex]
+                nodesLen |-> Len(Ev.nodes), addrIndex |-> Ev.addrIndex, addrIndexBad |-> Ev.addrIndexBad]
   /\ ans' = NoAns
   /\ UNCHANGED <<root, nosec>>
 
@@ -96,6 +96,7 @@ InvCounts == obs.set =>
   /\ obs.numNodes = Cardinality(table)
   /\ obs.statsNodes = Cardinality(table)      \* Stats().Nodes: "count of nodes in the node table"
   /\ obs.addrIndex = Cardinality(table)
+  /\ obs.addrIndexBad = 0                     \* the address index mirrors the buckets entry by entry
   /\ obs.goodNodes = Cardinality({x \in obs.snap : x.good})
   /\ obs.nodes = {KeyOf(x) : x \in {y \in obs.snap : ~y.bad}}
   /\ obs.nodesLen = Cardinality(obs.nodes)
